@@ -208,3 +208,205 @@ impl<P: Pay, W: WaitSel> Fl for MpmcPlain<P, W> {
         ux.recv_view(|p| view_hook(p)).map_err(|e| e.1)
     }
 }
+
+// ------------------------------------------------------------------------------------------
+// futures flavours (spin counts A = try spins, B = yield spins)
+
+use futures::task::verif as task;
+use futures::{Async, AsyncSink, Sink, Stream};
+
+pub type ViewFn<P> = fn(&P) -> u8;
+
+/// result of `Sink::start_send`
+pub enum SS<P> {
+    Ready,
+    NotReady(P),
+    Err(P),
+}
+
+pub trait FutFl: Fl {
+    fn start_send(tx: &mut Self::Tx, v: Self::P) -> SS<Self::P>;
+    /// Ok(Some(Some(v))) value, Ok(Some(None)) end of stream, Ok(None) NotReady
+    fn poll(rx: &mut Self::Rx) -> Option<Option<Self::P>>;
+    fn u_poll(ux: &mut Self::Ux) -> Option<Option<u8>>;
+    fn poll_complete(tx: &mut Self::Tx) -> bool;
+}
+
+pub struct BcastFut<P, const A: usize, const B: usize>(PhantomData<P>);
+
+impl<P: Pay, const A: usize, const B: usize> Fl for BcastFut<P, A, B> {
+    type P = P;
+    type Tx = BroadcastFutSender<P>;
+    type Rx = BroadcastFutReceiver<P>;
+    type Ux = BroadcastFutUniReceiver<u8, ViewFn<P>, P>;
+    const BCAST: bool = true;
+    const FUT: bool = true;
+
+    fn new(cap: u64) -> (Self::Tx, Self::Rx) {
+        broadcast_fut_queue_with(cap, A, B)
+    }
+    #[inline(always)]
+    fn try_send(tx: &Self::Tx, v: P) -> Result<(), TrySendError<P>> {
+        tx.try_send(v)
+    }
+    fn clone_tx(tx: &Self::Tx) -> Self::Tx {
+        tx.clone()
+    }
+    fn unsubscribe_tx(tx: Self::Tx) {
+        tx.unsubscribe()
+    }
+    #[inline(always)]
+    fn try_recv(rx: &Self::Rx) -> Result<P, TryRecvError> {
+        rx.try_recv()
+    }
+    fn recv(rx: &Self::Rx) -> Result<P, RecvError> {
+        rx.recv()
+    }
+    fn clone_rx(rx: &Self::Rx) -> Self::Rx {
+        rx.clone()
+    }
+    fn add_stream(rx: &Self::Rx) -> Self::Rx {
+        rx.add_stream()
+    }
+    fn unsubscribe_rx(rx: Self::Rx) -> bool {
+        rx.unsubscribe()
+    }
+    fn into_single(rx: Self::Rx) -> Result<Self::Ux, Self::Rx> {
+        rx.into_single(view_hook::<P> as ViewFn<P>).map_err(|e| e.1)
+    }
+    fn into_multi(ux: Self::Ux) -> Self::Rx {
+        ux.into_multi()
+    }
+    fn u_try_recv(_ux: &mut Self::Ux) -> Result<P, TryRecvError> {
+        unreachable!("futures uni receivers only view in place")
+    }
+    fn u_recv(_ux: &mut Self::Ux) -> Result<P, RecvError> {
+        unreachable!("futures uni receivers only view in place")
+    }
+    fn u_try_view(ux: &mut Self::Ux) -> Result<u8, TryRecvError> {
+        ux.try_recv()
+    }
+    fn u_view(ux: &mut Self::Ux) -> Result<u8, RecvError> {
+        ux.recv()
+    }
+}
+
+impl<P: Pay, const A: usize, const B: usize> FutFl for BcastFut<P, A, B> {
+    fn start_send(tx: &mut Self::Tx, v: P) -> SS<P> {
+        match tx.start_send(v) {
+            Ok(AsyncSink::Ready) => SS::Ready,
+            Ok(AsyncSink::NotReady(v)) => SS::NotReady(v),
+            Err(e) => SS::Err(e.0),
+        }
+    }
+    fn poll(rx: &mut Self::Rx) -> Option<Option<P>> {
+        match rx.poll() {
+            Ok(Async::Ready(x)) => Some(x),
+            Ok(Async::NotReady) => None,
+            Err(()) => unreachable!(),
+        }
+    }
+    fn u_poll(ux: &mut Self::Ux) -> Option<Option<u8>> {
+        match ux.poll() {
+            Ok(Async::Ready(x)) => Some(x),
+            Ok(Async::NotReady) => None,
+            Err(()) => unreachable!(),
+        }
+    }
+    fn poll_complete(tx: &mut Self::Tx) -> bool {
+        matches!(tx.poll_complete(), Ok(Async::Ready(())))
+    }
+}
+
+pub struct MpmcFut<P, const A: usize, const B: usize>(PhantomData<P>);
+
+impl<P: Pay, const A: usize, const B: usize> Fl for MpmcFut<P, A, B> {
+    type P = P;
+    type Tx = MPMCFutSender<P>;
+    type Rx = MPMCFutReceiver<P>;
+    type Ux = MPMCFutUniReceiver<u8, ViewFn<P>, P>;
+    const BCAST: bool = false;
+    const FUT: bool = true;
+
+    fn new(cap: u64) -> (Self::Tx, Self::Rx) {
+        multiqueue2::verif_hooks::mpmc_fut_queue_with(cap, A, B)
+    }
+    #[inline(always)]
+    fn try_send(tx: &Self::Tx, v: P) -> Result<(), TrySendError<P>> {
+        tx.try_send(v)
+    }
+    fn clone_tx(tx: &Self::Tx) -> Self::Tx {
+        tx.clone()
+    }
+    fn unsubscribe_tx(tx: Self::Tx) {
+        tx.unsubscribe()
+    }
+    #[inline(always)]
+    fn try_recv(rx: &Self::Rx) -> Result<P, TryRecvError> {
+        rx.try_recv()
+    }
+    fn recv(rx: &Self::Rx) -> Result<P, RecvError> {
+        rx.recv()
+    }
+    fn clone_rx(rx: &Self::Rx) -> Self::Rx {
+        rx.clone()
+    }
+    fn add_stream(_rx: &Self::Rx) -> Self::Rx {
+        unreachable!("mpmc futures receivers have no add_stream")
+    }
+    fn unsubscribe_rx(rx: Self::Rx) -> bool {
+        rx.unsubscribe()
+    }
+    fn into_single(rx: Self::Rx) -> Result<Self::Ux, Self::Rx> {
+        rx.into_single(view_hook::<P> as ViewFn<P>).map_err(|e| e.1)
+    }
+    fn into_multi(ux: Self::Ux) -> Self::Rx {
+        ux.into_multi()
+    }
+    fn u_try_recv(_ux: &mut Self::Ux) -> Result<P, TryRecvError> {
+        unreachable!("futures uni receivers only view in place")
+    }
+    fn u_recv(_ux: &mut Self::Ux) -> Result<P, RecvError> {
+        unreachable!("futures uni receivers only view in place")
+    }
+    fn u_try_view(ux: &mut Self::Ux) -> Result<u8, TryRecvError> {
+        ux.try_recv()
+    }
+    fn u_view(ux: &mut Self::Ux) -> Result<u8, RecvError> {
+        ux.recv()
+    }
+}
+
+impl<P: Pay, const A: usize, const B: usize> FutFl for MpmcFut<P, A, B> {
+    fn start_send(tx: &mut Self::Tx, v: P) -> SS<P> {
+        match tx.start_send(v) {
+            Ok(AsyncSink::Ready) => SS::Ready,
+            Ok(AsyncSink::NotReady(v)) => SS::NotReady(v),
+            Err(e) => SS::Err(e.0),
+        }
+    }
+    fn poll(rx: &mut Self::Rx) -> Option<Option<P>> {
+        match rx.poll() {
+            Ok(Async::Ready(x)) => Some(x),
+            Ok(Async::NotReady) => None,
+            Err(()) => unreachable!(),
+        }
+    }
+    fn u_poll(ux: &mut Self::Ux) -> Option<Option<u8>> {
+        match ux.poll() {
+            Ok(Async::Ready(x)) => Some(x),
+            Ok(Async::NotReady) => None,
+            Err(()) => unreachable!(),
+        }
+    }
+    fn poll_complete(tx: &mut Self::Tx) -> bool {
+        matches!(tx.poll_complete(), Ok(Async::Ready(())))
+    }
+}
+
+pub fn set_task(id: usize) {
+    task::set_current(id);
+}
+pub fn notify_count(id: usize) -> usize {
+    task::notify_count(id)
+}
